@@ -88,6 +88,7 @@ type Unit struct {
 	sentinels  map[string]Term
 	lockSnaps  map[string]*State
 	inlineSites []token.Pos // call positions (outermost first) of the inlined callees being executed
+	loopRegion  bool // modified() is computing a loop's modified set
 	forceInline map[*types.Func]bool // bounded units: inline these (recursive) callees instead of using contracts
 	boundedNote string
 }
@@ -155,6 +156,22 @@ func (u *Unit) oblige(st *State, name, kind string, props []string, goal Term, p
 
 // splitAnd returns the top-level conjuncts of (and a b ...).
 func splitAnd(t Term) []Term {
+	if strings.HasPrefix(t.S, "(=> ") {
+		// (=> A (and B C)) splits into (=> A B), (=> A C)
+		i := len("(=> ")
+		j := skipSexp(t.S, i)
+		ante := strings.TrimSpace(t.S[i:j])
+		k := skipSexp(t.S, j)
+		cons := strings.TrimSpace(t.S[j:k])
+		if strings.HasPrefix(cons, "(and ") && strings.TrimSpace(t.S[k:]) == ")" {
+			var out []Term
+			for _, c := range splitAnd(Term{cons, SBool}) {
+				out = append(out, Term{"(=> " + ante + " " + c.S + ")", SBool})
+			}
+			return out
+		}
+		return []Term{t}
+	}
 	if !strings.HasPrefix(t.S, "(and ") {
 		return []Term{t}
 	}
